@@ -385,6 +385,17 @@ func (fs *fsMutable) Rename(ctx context.Context, op *fuseops.RenameOp) (err erro
 	fs.insertReadDirEntry(op.NewParent, &newRC)
 	fs.insertLookupEntry(op.NewParent, op.NewName, l.(lookupEntry))
 
+	// a directory moving to another parent takes its ".." link along: parents count their sub-directories in Nlink,
+	// and a directory whose count reaches 0 is dropped when the kernel forgets it
+	if oldChild.mode.IsDir() && op.OldParent != op.NewParent {
+		if pn, ok := fs.iNodeStore.Get(formKey(op.OldParent)); ok {
+			pn.(*nodeEntry).attr.Nlink--
+		}
+		if pn, ok := fs.iNodeStore.Get(formKey(op.NewParent)); ok {
+			pn.(*nodeEntry).attr.Nlink++
+		}
+	}
+
 	return nil
 }
 
